@@ -207,6 +207,59 @@ class Module:
                 self.out.append(f"theorem {name}_val : {name} = {lit(v)} := by decide")
                 self.out.append("")
 
+    def translate_table_constants(self, names: list[str]) -> None:
+        """T1: module-level nested lists/tuples of int literals and string literals."""
+        self.tables = getattr(self, "tables", {})
+        found = set()
+        for n in self.tree.body:
+            if isinstance(n, ast.Assign) and len(n.targets) == 1 and isinstance(n.targets[0], ast.Name) \
+                    and n.targets[0].id in names:
+                name = n.targets[0].id
+                v = n.value
+                if isinstance(v, ast.Constant) and isinstance(v.value, str):
+                    self.out.append(f"@[pygen] def {name} : String := {lean_str(v.value)}")
+                    self.tables[name] = ("str", v.value)
+                elif isinstance(v, (ast.List, ast.Tuple)):
+                    def lit_of(x, depth=0):
+                        if isinstance(x, (ast.List, ast.Tuple)):
+                            return "[" + ", ".join(lit_of(e, depth + 1) for e in x.elts) + "]"
+                        return str(const_eval(x, self.consts))
+                    def depth_of(x):
+                        return 1 + depth_of(x.elts[0]) if isinstance(x, (ast.List, ast.Tuple)) and x.elts else (
+                            1 if isinstance(x, (ast.List, ast.Tuple)) else 0)
+                    d = depth_of(v)
+                    ty = "Int"
+                    t = "int"
+                    for _ in range(d):
+                        ty = f"(List {ty})"
+                        t = ("list", t)
+                    self.out.append(f"@[pygen] def {name} : {ty} := {lit_of(v)}")
+                    self.tables[name] = t
+                else:
+                    raise Untranslatable(f"{name}: not a literal table", n, self.path)
+                self.out.append("")
+                found.add(name)
+        missing = set(names) - found
+        if missing:
+            raise Untranslatable(f"table constants not found: {sorted(missing)}", where=self.path)
+
+    def translate_int_enum(self, cls: str) -> None:
+        """T1: the (name, value) members of an IntEnum / Enum with int values."""
+        members = []
+        for n in self.find_class(cls).body:
+            if isinstance(n, ast.Assign) and len(n.targets) == 1 and isinstance(n.targets[0], ast.Name) \
+                    and not n.targets[0].id.startswith("_"):
+                members.append((n.targets[0].id, const_eval(n.value, self.consts)))
+        if not members:
+            raise Untranslatable(f"{cls}: no enum members", where=self.path)
+        self.enums = getattr(self, "enums", {})
+        self.enums[cls] = members
+        body = ", ".join(f'("{k}", {v})' for k, v in members)
+        self.out.append(f"/-- members of `{cls}` -/")
+        self.out.append(f"@[pygen] def {cls}_members : List (String × Int) := [{body}]")
+        self.out.append(f"@[pygen] def {cls}_values : List Int := [{', '.join(str(v) for _, v in members)}]")
+        self.out.append("")
+
     # -- functions --------------------------------------------------------------------------
     def translate_function(self, key: str, fn: ast.FunctionDef, lean_name: str, params: list[tuple[str, Any]],
                            self_type=None, body: list[ast.stmt] | None = None, ret_hint=None,
@@ -440,6 +493,9 @@ class Ctx:
                 if any(x is None for x in terms):
                     self.fail(f"{e.id} used before all its fields are set", e)
                 return list(terms), t
+            tbl = getattr(self.mod, "tables", {}).get(e.id)
+            if tbl is not None and tbl != () and not isinstance(tbl, list):
+                return [e.id], ("str" if tbl[0] == "str" else tbl)
             c = self.mod.find_const(e.id)
             if c:
                 return [c[0] if not c[0].startswith(self.mod.ns + ".") else c[0][len(self.mod.ns) + 1:]], "int"
@@ -559,6 +615,14 @@ class Ctx:
                             self.fail(f"format spec {spec!r}", e)
                         parts.append(f"(Py.fmtZero {x} {int(spec[1:])})")
             return ["(" + " ++ ".join(parts or ['""']) + ")"], "str"
+        if isinstance(e, ast.Subscript):
+            terms, t = self._expr(e.value, binds)
+            if isinstance(t, tuple) and t[0] == "list":
+                idx = self._int(e.slice, binds)
+                v = self.fresh("g")
+                binds.append((v, f"(Py.listGetE {terms[0]} {idx})"))
+                return [v], t[1]
+            self.fail(f"subscript on {t}", e)
         if isinstance(e, ast.Call):
             return self.call(e, binds)
         self.fail(f"expression {type(e).__name__}", e)
@@ -582,6 +646,11 @@ class Ctx:
         args = e.args
         if e.keywords and fname not in ("dt.timedelta", "ht.timedelta", "TimeValueTuple"):
             self.fail(f"keyword arguments in call to {fname}", e)
+        if fname in getattr(self.mod, "enums", {}) and len(args) == 1:
+            x = self._int(args[0], binds)
+            v = self.fresh("m")
+            binds.append((v, f"(Py.enumCheck {fname}_values {x})"))
+            return [v], "int"
         if fname == "abs":
             x = self._int(args[0], binds)
             return [f"(Py.abs {x})"], "int"
